@@ -57,11 +57,26 @@ func c20Threshold(c *eng.Ctx) {
 	// into a helper): the threshold accounting is then owed by its call sites,
 	// with the argument bound to that parameter as the progress slice.
 	argIdx := map[ssa.CallInstruction]int{}
+	fwdField := map[ssa.CallInstruction]*ssa.FieldAddr{} // the progress field read off the forwarder's (struct) parameter
 	{
 		var expanded []eng.CallSite
 		for _, s := range sites {
 			fw := eng.TopFunc(s.Fn)
-			par, isPar := s.Call.Common().Args[0].(*ssa.Parameter)
+			a0 := s.Call.Common().Args[0]
+			par, isPar := a0.(*ssa.Parameter)
+			var fa *ssa.FieldAddr
+			if !isPar {
+				// shamir.Combine(cfg.Progress) with cfg a parameter of the helper
+				if x, ok := c20FieldLoad(a0); ok {
+					base := c20Strip(x.X)
+					if ld := c20Load(base); ld != nil {
+						base = ld
+					}
+					if pp, ok := base.(*ssa.Parameter); ok {
+						par, isPar, fa = pp, true, x
+					}
+				}
+			}
 			if _, tabled := c20Combiners[eng.FuncName(fw)]; tabled || !isPar || fw != s.Fn || !eng.InPkg(fw, "vault") {
 				expanded = append(expanded, s)
 				continue
@@ -74,12 +89,15 @@ func c20Threshold(c *eng.Ctx) {
 			}
 			fm, _ := c.P.StaticCallee(eng.FuncName(fw))
 			cs := c.P.FindCalls(fm, nil)
-			if idx < 0 || len(cs) == 0 || !c20Forwarder(c, fw, s.Call, idx, cs, thrField) {
+			if idx < 0 || len(cs) == 0 || !c20Forwarder(c, fw, s.Call, idx, fa, cs, thrField) {
 				expanded = append(expanded, s)
 				continue
 			}
 			for _, cc := range cs {
 				argIdx[cc.Call] = idx
+				if fa != nil {
+					fwdField[cc.Call] = fa
+				}
 				expanded = append(expanded, cc)
 			}
 		}
@@ -106,6 +124,11 @@ func c20Threshold(c *eng.Ctx) {
 		arg := call.Common().Args[argIdx[call]]
 		P := eng.ExprDeep(arg)
 		pfa, isField := c20FieldLoad(arg)
+		if fa := fwdField[call]; fa != nil {
+			// the helper combines <its parameter>.<field>: here that is <arg>.<field>
+			pfa, isField = fa, true
+			P = eng.ExprDeep(arg) + "." + eng.FieldVar(fa).Name()
+		}
 		c.Clause("R5", "C20.3b")
 		if !isField || c20HasEllipsis(P) {
 			c.Violation(f, "combined slice is a progress field", call.Pos(), "the argument of shamir.Combine is not a load of a struct field (or renders too deep to compare): "+P, nil)
@@ -272,8 +295,10 @@ func c20Threshold(c *eng.Ctx) {
 			continue
 		}
 		h := held(f, spec.lock, spec.method)
-		for _, cl := range eng.Calls(f, `^shamir\.Combine$`) {
-			check(f, h, cl, "shamir.Combine", spec.lock)
+		for _, st := range sites {
+			if eng.TopFunc(st.Fn) == f && st.Fn == f {
+				check(f, h, st.Call, "shamir.Combine", spec.lock)
+			}
 		}
 		for _, pv := range pvs {
 			for _, w := range c.P.FieldWriters(pv) {
@@ -644,8 +669,23 @@ func c20StickyFlag(f *ssa.Function, l c20Loop, flag *ssa.Phi, v ssa.Value, pred 
 // [t == 1] for an integer parameter t of fw, and every call site binds t to
 // the SecretThreshold of a configuration. Returns false (after recording why)
 // if the helper cannot be treated as a transparent forwarder.
-func c20Forwarder(c *eng.Ctx, fw *ssa.Function, comb ssa.CallInstruction, idx int, callers []eng.CallSite, thrField *types.Var) bool {
+func c20Forwarder(c *eng.Ctx, fw *ssa.Function, comb ssa.CallInstruction, idx int, fa *ssa.FieldAddr, callers []eng.CallSite, thrField *types.Var) bool {
 	par := fw.Params[idx]
+	// is v the progress slice the helper combines (its parameter, or the field of its struct parameter)?
+	isP := func(v ssa.Value) bool {
+		if fa == nil {
+			return c20Strip(v) == ssa.Value(par)
+		}
+		x, ok := c20FieldLoad(v)
+		if !ok || eng.FieldVar(x) != eng.FieldVar(fa) {
+			return false
+		}
+		base := c20Strip(x.X)
+		if ld := c20Load(base); ld != nil {
+			base = ld
+		}
+		return base == ssa.Value(par)
+	}
 	c.Clause("R11", "C20.3d")
 	c.ErrChecked(fw, comb)
 	c.Clause("R4", "C20.3d")
@@ -653,7 +693,7 @@ func c20Forwarder(c *eng.Ctx, fw *ssa.Function, comb ssa.CallInstruction, idx in
 	var shortcut []ssa.Instruction
 	for _, in := range eng.Instrs(fw, func(in ssa.Instruction) bool { _, ok := in.(*ssa.IndexAddr); return ok }) {
 		ia := in.(*ssa.IndexAddr)
-		if c20ConstInt(ia.Index, 0) && c20Strip(ia.X) == ssa.Value(par) {
+		if c20ConstInt(ia.Index, 0) && isP(ia.X) {
 			shortcut = append(shortcut, in)
 		}
 	}
@@ -661,9 +701,14 @@ func c20Forwarder(c *eng.Ctx, fw *ssa.Function, comb ssa.CallInstruction, idx in
 		return true
 	}
 	c.Clause("R2", "C20.3b")
-	site := "threshold-1 shortcut " + eng.VarName(par) + "[0] in the forwarder"
+	what := eng.VarName(par)
+	if fa != nil {
+		what += "." + eng.FieldVar(fa).Name()
+	}
+	site := "threshold-1 shortcut " + what + "[0] in the forwarder"
 	var isOne []eng.Edge
 	tIdx := -1
+	desc := ""
 	for _, b := range fw.Blocks {
 		ifi := eng.IfOf(b)
 		if ifi == nil {
@@ -673,18 +718,36 @@ func c20Forwarder(c *eng.Ctx, fw *ssa.Function, comb ssa.CallInstruction, idx in
 		if !ok || !c20ConstInt(y, 1) {
 			continue
 		}
+		if fa != nil {
+			// <same struct parameter>.SecretThreshold == 1
+			if tfa, isT := c20FieldLoad(x); isT && eng.FieldVar(tfa) == thrField {
+				base := c20Strip(tfa.X)
+				if ld := c20Load(base); ld != nil {
+					base = ld
+				}
+				if base == ssa.Value(par) {
+					isOne = append(isOne, c20BaseEdge(ifi, true))
+					desc = eng.VarName(par) + ".SecretThreshold"
+				}
+			}
+			continue
+		}
 		for i, p := range fw.Params {
 			if c20Strip(x) == ssa.Value(p) {
 				tIdx = i
 				isOne = append(isOne, c20BaseEdge(ifi, true))
+				desc = eng.VarName(p)
 			}
 		}
 	}
-	if tIdx < 0 {
-		c.Undecided(fw, site, shortcut[0].Pos(), "the helper reads "+eng.VarName(par)+"[0] without testing an integer parameter against 1: the rule cannot tell which threshold the shortcut belongs to")
+	if len(isOne) == 0 {
+		c.Undecided(fw, site, shortcut[0].Pos(), "the helper reads "+what+"[0] without testing the threshold against 1: the rule cannot tell which threshold the shortcut belongs to")
 		return false
 	}
-	c.Cut(fw, "threshold-1 shortcut "+eng.VarName(par)+"[0]", shortcut, eng.Guard{Desc: "[" + eng.VarName(fw.Params[tIdx]) + " == 1]=true", Edges: isOne}, nil)
+	c.Cut(fw, "threshold-1 shortcut "+what+"[0]", shortcut, eng.Guard{Desc: "[" + desc + " == 1]=true", Edges: isOne}, nil)
+	if fa != nil {
+		return true // the threshold is read off the same configuration the progress belongs to
+	}
 	c.Clause("R5", "C20.3b")
 	for _, cc := range callers {
 		tfa, isT := c20FieldLoad(cc.Call.Common().Args[tIdx])
